@@ -7,6 +7,9 @@ import subprocess
 ROOT = os.path.dirname(os.path.dirname(os.path.abspath(__file__)))
 
 TECH = {
+    "C08": ("contracts on HDPrivateKey/HDPublicKey from_seed/child/traverse/xprv/xpub/parse and blind_xpub vs reference BIP32; private/public agreement, traverse-equals-fold and round-trip monitors; memo invariant", "2 C08"),
+    "C12": ("contracts on TapLeaf/TapBranch hashing and control blocks, ControlBlock codec and the public/private taproot tweak vs reference BIP341; all tree shapes; sibling-swap invariance; differential control-block/leaf tamper catalogue", "2 C12"),
+    "C13": ("contracts on MuSigTapScript key aggregation / signing (final signature judged by the reference BIP340 verifier under the reference aggregate key) and on the k-of-n tree generators (subset<->leaf bijection); leaf spends through Tx.verify_input; negative classes", "2 C13"),
     "C09": ("contracts on Base58(Check), Bech32/Bech32m, WIF and address<->scriptPubKey functions vs reference encoders; exhaustive single and sampled/exhaustive double substitutions of segwit addresses", "2 C09"),
     "C16": ("contracts on calc_core_checksum, parse_full_key_record and P2WSHSortedMulti.__init__/parse/get_address vs reference descriptor checksum + BIP32 + sortedmulti; record permutations; single-character substitution sweeps", "2 C16"),
     "C20": ("contracts on bc32, CBOR and BCUR single/multi encode/parse vs a strict reference receiver; permutations/omissions/foreign parts; every-position character substitutions", "2 C20"),
